@@ -160,6 +160,8 @@ Section Codec.
      c32rtomb writes its bytes and the function adds the terminator: more than 4 bytes do not
      fit into the 5-byte buffers of all callers *)
   Definition utf8_char_to_string (c : Z) : res (Z * list Z) :=
+    if utf8_num_bytes_char c =? -1 then Ok (-1, [])        (* not a Unicode scalar value: refused up front *)
+    else
     match enc c with
     | None => Ok (-1, [])
     | Some bs => if 5 <? len bs + 1 then OOB else Ok (len bs, bs)
@@ -236,11 +238,12 @@ Section Codec.
         else if oldLen =? newLen then
           b1 <- blit blk i newChar ;; Ok (mkstr b1 (cap s))
         else if newLen <? oldLen then
-          (* in place; the capacity is NOT adjusted *)
+          (* shrink in place, then give the surplus back: cap stays byte length + 1 *)
           b1 <- blit blk i newChar ;;
           tl <- sub b1 (i + oldLen) (cap s - i - oldLen) ;;
           b2 <- blit b1 (i + newLen) tl ;;
-          Ok (mkstr b2 (cap s))
+          let newCap := cap s - oldLen + newLen in
+          Ok (mkstr (realloc b2 newCap) newCap)
         else
           let newCap := cap s - oldLen + newLen in
           pre <- sub blk 0 i ;;
